@@ -53,7 +53,9 @@ class Feeder:
     """Presents a log text as the requested input kind."""
 
     def __init__(self):
-        self.dir = tempfile.mkdtemp(prefix='vf-c19-')
+        base = os.path.join(tempfile.gettempdir(), 'C19')
+        os.makedirs(base, exist_ok=True)
+        self.dir = tempfile.mkdtemp(prefix='feed-', dir=base)
         self.n = 0
         self.open = []
 
@@ -67,6 +69,7 @@ class Feeder:
             return io.BytesIO(data)
         self.n += 1
         p = os.path.join(self.dir, f'log{self.n % 7}.lammps')
+        os.makedirs(self.dir, exist_ok=True)          # the machine is shared: survive somebody's /tmp clean-up
         with open(p, 'wb') as f:
             f.write(data)
         if kind == 'path':
@@ -241,8 +244,13 @@ def check_flatten(ctx, log, runs, style, lo=None, hi=None, where='flatten', **de
     rec.count(f'flatten:{style}')
     ucols = M.union_columns(sub)
     cols = [str(c) for c in res.columns]
-    rec.check(set(cols) == set(ucols), 'merged table has the union of the printed columns', f'{where}:{style}:columns',
-              got=cols, expected=ucols, **detail)
+    # columns of blocks that printed no row (log cut right after the header) carry no value: the statement does not say
+    # whether the merged table keeps them (it did while such a block emptied the table; since /repo d962039 rowless
+    # blocks do not take part in the merge) - required: the columns of every block with rows; allowed: all printed ones
+    with_rows = [r for r in sub if len(r['rows']) > 0]
+    need = M.union_columns(with_rows) if with_rows else ucols
+    rec.check(set(need) <= set(cols) <= set(ucols), 'merged table has the union of the printed columns', f'{where}:{style}:columns',
+              got=cols, expected=ucols, required=need, **detail)
     if 'Step' not in cols:
         return
     try:
